@@ -66,7 +66,7 @@ WantObs(w, act, args) ==
     [] OTHER                                  -> <<>>
 
 Failed(e, w) ==
-  LET c == [ Refines     |-> e.raised \/ e.fresh_raised \/ e.obs = WantObs(w, e.act, e.args),
+  LET c == [ Refines     |-> e.raised \/ e.fresh_raised \/ e.obs = << "-" >> \/ e.obs = WantObs(w, e.act, e.args),
              Outcome     |-> e.raised = e.fresh_raised,
              ResultFresh |-> e.res_ok,
              StoredFresh |-> e.bad = <<>>,
